@@ -350,6 +350,8 @@ def backends(ctx, hb, classify, mexe=None):
                         continue
                     if name == "jit" and tg & skip_tags["jit"]:
                         continue
+                    if name != "jit" and "badutf8" in tg:
+                        continue  # optdec re-parses the rewritten buffer: panics, and raw text taken after in-place unescaping
                     rep["tied"][name] += 1
                     if m[col] != r[1] or (m[col] == "O" and m[col + 1] != r[7]):
                         cs = case_by_id[r[0]]
